@@ -338,7 +338,8 @@ def columns_layout(context, box, bottom_space, skip_stack, containing_block,
         skip_stack = None
         page_is_empty = False
 
-        if stop_rendering:
+        if break_page or column_skip_stack is not None:
+            # The group is not finished: continue it on the next page
             break
 
     # Report footnotes above the defined footnotes height
